@@ -95,10 +95,12 @@ impl<T> Array<T> {
         if axis.0 >= self.dimensions() || index >= self.shape[axis.0] {
             None
         } else {
-            let offset = index * self.strides[axis.0];
             // With an axis of length zero elsewhere the array holds no data, and the offset may lie
-            // beyond it: the view is then empty
-            let data = self.data.get(offset..).unwrap_or(&[]);
+            // beyond it (or, with saturated strides, beyond usize): the view is then empty
+            let data = index
+                .checked_mul(self.strides[axis.0])
+                .and_then(|offset| self.data.get(offset..))
+                .unwrap_or(&[]);
             let shape = self.shape.remove_axis(axis);
             let strides = self.strides.remove_axis(axis);
 
